@@ -88,18 +88,36 @@ def r21_2(ctx):
     m = _collect(ctx)
     for fn in ("_walk_records", "_walk_record_chunks"):
         f = m.func(fn)
-        tries = [n for n in body_walk(f.node) if isinstance(n, ast.Try) and any(isinstance(c, ast.Call) and unparse(c.func) == "make_layer" for c in ast.walk(n))]
-        need(tries, f"try: make_layer() in {fn}")
-        t = tries[0]
+        from .common import chain_conjuncts, with_helpers
+
+        # the native-layer attempt and its fallback may live in the walker or in a same-module helper it calls
+        scope = with_helpers(f, depth=1)
+        tries = []
+        for g in scope:
+            for n in body_walk(g.node):
+                if isinstance(n, ast.Try):
+                    # the call of the layer factory obtained with getattr(e, "_frisky_layer", ...)
+                    factory = {t.id for a in body_walk(g.node) if isinstance(a, ast.Assign) and isinstance(a.value, ast.Call) and dotted(a.value.func) == "getattr" and any(isinstance(x, ast.Constant) and x.value == "_frisky_layer" for x in a.value.args) for t in a.targets if isinstance(t, ast.Name)}
+                    if any(isinstance(c, ast.Call) and ((isinstance(c.func, ast.Name) and c.func.id in factory) or (isinstance(c.func, ast.Attribute) and c.func.attr == "_frisky_layer")) for b in n.body for c in ast.walk(b)):
+                        tries.append((g, n))
+        if not tries:
+            rr.inst(site(f) + "::native-layer attempt", present=False)
+            ctx.finding(rr, site(f) + "::native-layer attempt", f"{fn} no longer wraps the native layer construction (e._frisky_layer()) in a try with a fallback: a layer that declines with NotImplementedError aborts the whole submission", func=f)
+            continue
+        g, t = tries[0]
         types = sorted(x for h in t.handlers for x in ([dotted(e) for e in h.type.elts] if isinstance(h.type, ast.Tuple) else [dotted(h.type) if h.type is not None else "<bare>"]))
-        rr.inst(site(f, t), handler_types=types)
+        rr.inst(site(g, t), handler_types=types, reached_from=fn)
         if types != ["ImportError", "NotImplementedError"]:
-            ctx.finding(rr, site(f, t), f"the native-layer fallback catches {types}, not exactly (NotImplementedError, ImportError): a wider handler hides real errors behind a silently different graph, a narrower one aborts instead of declining", func=f, node=t)
-        fb = [n for n in body_walk(f.node) if isinstance(n, ast.Assign) and isinstance(n.value, ast.Call) and dotted(n.value.func) == "GraphRecordsLayer"]
-        cfg = cfg_of(ctx, f)
-        ok = any(any(pol and unparse(tst) == "layer is None" for tst, pol in cfg.guards(s)) for s in fb)
+            ctx.finding(rr, site(g, t), f"the native-layer fallback catches {types}, not exactly (NotImplementedError, ImportError): a wider handler hides real errors behind a silently different graph, a narrower one aborts instead of declining", func=g, node=t)
+        ok = False
+        for h in scope:
+            hcfg = cfg_of(ctx, h)
+            for s_ in body_walk(h.node):
+                if isinstance(s_, ast.Assign) and isinstance(s_.value, ast.Call) and dotted(s_.value.func) == "GraphRecordsLayer":
+                    if any(c.endswith(" is None") for c in chain_conjuncts(hcfg, s_)):
+                        ok = True
         if not ok:
-            ctx.finding(rr, site(f), "no GraphRecordsLayer(e) fallback under `layer is None`", func=f)
+            ctx.finding(rr, site(f), "no GraphRecordsLayer(e) fallback under `<layer> is None`", func=f)
     # every raise on the records path
     repo = ctx.repo
     for mod in repo.units:
